@@ -4,7 +4,6 @@ package main
 // bytes (through the `verif` build-tag hooks), so every operation can start from any byte state.
 
 import (
-	"errors"
 	"fmt"
 
 	gocvss20 "github.com/pandatix/go-cvss/20"
@@ -96,6 +95,15 @@ func eqHist[T comparable, P interface {
 	return "eq"
 }
 
+// asPtr: err IS a value of the pointer type (a direct type assertion — a wrapped error is not "the documented error value")
+func asPtr[T any](err error, target **T) bool {
+	p, ok := any(err).(*T)
+	if ok {
+		*target = p
+	}
+	return ok
+}
+
 func m(abv string, mand bool, group int, vs ...string) metric {
 	return metric{abv: abv, values: vs, mand: mand, group: group}
 }
@@ -184,13 +192,13 @@ var v20 = &version{
 		switch {
 		case err == nil:
 			return errS(0, "")
-		case errors.Is(err, gocvss20.ErrTooShortVector):
+		case err == gocvss20.ErrTooShortVector:
 			return errS(2, "")
-		case errors.Is(err, gocvss20.ErrInvalidMetricOrder):
+		case err == gocvss20.ErrInvalidMetricOrder:
 			return errS(3, "")
-		case errors.Is(err, gocvss20.ErrInvalidMetricValue):
+		case err == gocvss20.ErrInvalidMetricValue:
 			return errS(4, "")
-		case errors.As(err, &im):
+		case asPtr(err, &im):
 			return errS(101, im.Abv)
 		}
 		return errS(99, err.Error())
@@ -250,19 +258,19 @@ var v30 = &version{
 		switch {
 		case err == nil:
 			return errS(0, "")
-		case errors.Is(err, gocvss30.ErrInvalidCVSSHeader):
+		case err == gocvss30.ErrInvalidCVSSHeader:
 			return errS(1, "")
-		case errors.Is(err, gocvss30.ErrTooShortVector):
+		case err == gocvss30.ErrTooShortVector:
 			return errS(2, "")
-		case errors.Is(err, gocvss30.ErrInvalidMetricValue):
+		case err == gocvss30.ErrInvalidMetricValue:
 			return errS(4, "")
-		case errors.Is(err, gocvss30.ErrOutOfBoundsScore):
+		case err == gocvss30.ErrOutOfBoundsScore:
 			return errS(5, "")
-		case errors.As(err, &im):
+		case asPtr(err, &im):
 			return errS(101, im.Abv)
-		case errors.As(err, &dn):
+		case asPtr(err, &dn):
 			return errS(102, dn.Abv)
-		case errors.As(err, &ms):
+		case asPtr(err, &ms):
 			return errS(103, ms.Abv)
 		}
 		return errS(99, err.Error())
@@ -322,19 +330,19 @@ var v31 = &version{
 		switch {
 		case err == nil:
 			return errS(0, "")
-		case errors.Is(err, gocvss31.ErrInvalidCVSSHeader):
+		case err == gocvss31.ErrInvalidCVSSHeader:
 			return errS(1, "")
-		case errors.Is(err, gocvss31.ErrTooShortVector):
+		case err == gocvss31.ErrTooShortVector:
 			return errS(2, "")
-		case errors.Is(err, gocvss31.ErrInvalidMetricValue):
+		case err == gocvss31.ErrInvalidMetricValue:
 			return errS(4, "")
-		case errors.Is(err, gocvss31.ErrOutOfBoundsScore):
+		case err == gocvss31.ErrOutOfBoundsScore:
 			return errS(5, "")
-		case errors.As(err, &im):
+		case asPtr(err, &im):
 			return errS(101, im.Abv)
-		case errors.As(err, &dn):
+		case asPtr(err, &dn):
 			return errS(102, dn.Abv)
-		case errors.As(err, &ms):
+		case asPtr(err, &ms):
 			return errS(103, ms.Abv)
 		}
 		return errS(99, err.Error())
@@ -381,17 +389,17 @@ var v40 = &version{
 		switch {
 		case err == nil:
 			return errS(0, "")
-		case errors.Is(err, gocvss40.ErrInvalidCVSSHeader):
+		case err == gocvss40.ErrInvalidCVSSHeader:
 			return errS(1, "")
-		case errors.Is(err, gocvss40.ErrTooShortVector):
+		case err == gocvss40.ErrTooShortVector:
 			return errS(2, "")
-		case errors.Is(err, gocvss40.ErrInvalidMetricOrder):
+		case err == gocvss40.ErrInvalidMetricOrder:
 			return errS(3, "")
-		case errors.Is(err, gocvss40.ErrInvalidMetricValue):
+		case err == gocvss40.ErrInvalidMetricValue:
 			return errS(4, "")
-		case errors.Is(err, gocvss40.ErrOutOfBoundsScore):
+		case err == gocvss40.ErrOutOfBoundsScore:
 			return errS(5, "")
-		case errors.As(err, &im):
+		case asPtr(err, &im):
 			return errS(101, im.Abv)
 		}
 		return errS(99, err.Error())
